@@ -212,7 +212,44 @@ def _redirect_chain(start_i, cred, cookie, proxy, nhops, c1, t1, c2, t2, c3, t3)
     return len(client.wire) == n
 
 
+_CK_HOSTS = ['a.example', 'b.example', 'sub.a.example', 'xa.example', '[2001:db8::1]', '[2001:db8::2]', '[::1]', '[::2]', '192.168.0.1',
+             '192.168.0.2', 'a.example:8080', 'u:p@a.example', '[2001:db8::beef]', 'example', '1.example', '2.example']
+
+
+def _cookie_scope(h1, h2, path_i):
+    """A host-only cookie (no Domain attribute) left by host 1 in the shared jar is sent to host 2 iff it is the same host."""
+    clear_url_memo()
+    a, b = pick(_CK_HOSTS, h1), pick(_CK_HOSTS, h2)
+    u1 = 'http://' + a + '/start'
+    u2 = 'http://' + b + pick(['/next', '/', '/start/deeper?x=1'], path_i)
+    with nosym():
+        jar = _QuietJar(http.cookiejar.CookieJar())
+        pre_client = _WireClient([(200, None, (('Set-Cookie', 'sid=SECRET-A; Path=/'),))], False)
+        run(WebSession(Request(u1), pre_client, RedirectTracker(max_redirects=5), Request, cookie_jar=jar).start())
+        client = _WireClient([(200, None, ())], False)
+        run(WebSession(Request(u2), client, RedirectTracker(max_redirects=5), Request, cookie_jar=jar).start())
+    raw, info = client.wire[0]
+    sent = b'sid=secret-a' in raw.lower()
+    host1 = URLInfo.parse(u1).hostname
+    same = host1 == info.hostname
+    if not same and not host1[:1].isdigit() and ':' not in host1 and info.hostname.endswith('.' + host1):
+        hit('subdomain')
+        return True                                     # Netscape-style domain matching of http.cookiejar: a sub-domain may receive it (not judged)
+    if same:
+        hit('same-sent' if sent else 'same-unsent')     # not sending a cookie to its own host (URL with user info) is no violation of C16
+        return True
+    hit('other')
+    return not sent
+
+
 HARNESSES = [
+    H('cookie_scope', '_cookie_scope', 'h1: int, h2: int, path_i: int', pre=['0 <= h1 < %d and 0 <= h2 < %d and 0 <= path_i <= 2' % (len(_CK_HOSTS), len(_CK_HOSTS))],
+      parts=[{'tag': 'p%d' % i, 'fix': {'path_i': str(i)}} for i in range(3)],
+      timeout={'quick': 250, 'thorough': 600}, samples=[(0, 0, 0), (0, 1, 0), (4, 5, 1)], need=['same-sent', 'other'],
+      funcs=['wpull/cookiewrapper.py:convert_http_request', 'wpull/cookiewrapper.py:CookieJarWrapper.add_cookie_header',
+             'wpull/cookiewrapper.py:CookieJarWrapper.extract_cookies', 'wpull/protocol/http/web.py:WebSession._add_cookies'],
+      doc='a host-only cookie stored through the real extraction path is never sent with a later request to a different '
+          'host (and is sent to the same host: vacuity guard) - sub-domains of a host NAME are not judged, stdlib domain matching - (16 x 16 host pairs: names, sub-domains, look-alikes, IPv4 and IPv6 literals differing in the last group, ports, user info)'),
     H('request_shape', '_request_shape', 'si: int, hi: int, pi: int, qi: int, ri: int, full_url: bool',
       pre=['0 <= si < %d and 0 <= hi < %d and 0 <= pi < %d and 0 <= qi < %d and 0 <= ri < %d' % (
           len(_SCHEMES), len(_HOSTS), len(_PATHS), len(_QUERIES), len(_REFERERS))],
